@@ -40,6 +40,16 @@
 
 static vbi_decoder VBI;       /* static zero object = what calloc in vbi_decoder_new leaves */
 
+/* The automatic safety checks (pointer, bounds, overflow) stay on for the library code included above; they are
+ * switched off for the harness' own helper code below: every pointer dereference check is six assertions whose
+ * symbolic execution walks the 170 KB decoder type (measured: ~10 ms each, 80 % of the symex time). */
+#pragma CPROVER check push
+#pragma CPROVER check disable "pointer"
+#pragma CPROVER check disable "pointer-overflow"
+#pragma CPROVER check disable "signed-overflow"
+#pragma CPROVER check disable "undefined-shift"
+#pragma CPROVER check disable "pointer-primitive"
+
 /* ======================================================================================================
  * 1. post-constructor state, built directly (DESIGN R7), validated natively against vbi_caption_init()
  * ====================================================================================================== */
@@ -153,6 +163,8 @@ typedef struct {
   int n_unk;         /* (KNOWN_EOC_ERASES_HIDDEN) non-displayed memory holds a flipped caption */
   unsigned rows;     /* rows the commands since the last comparison may have changed on the screen (bit r = row r); a hint which
                         rows to compare after a step - the whole page is compared at the end of every sequence */
+  int dchg;          /* characters of the displayed memory changed since the last comparison */
+  unsigned used[2];  /* rows of m[0], m[1] that may hold something (superset; concrete when the rows of the sequence are) */
   rpen pen;
   uint32_t m[2][15][32];
 } rchan;
@@ -164,16 +176,25 @@ static int r_last_valid, r_gap; static unsigned r_last1, r_last2;   /* control c
 static uint32_t r_mk(const rpen *p, unsigned uc)
 { return uc | (p->fg << 16) | (p->bg << 19) | (p->op << 22) | (p->ul << 24) | (p->it << 25) | (p->fl << 26) | (p->amb << 27); }
 
+/* direct indexing (row 0..14, col 1..32; CBMC's bounds checks on these accesses double as sanity checks of the model) */
 static void r_set(rchan *t, int k, int row, int col, uint32_t v)
-{ int kk, r, c; for (kk = 0; kk < 2; kk++) for (r = 0; r < 15; r++) for (c = 0; c < 32; c++) if (kk == k && r == row && c + 1 == col) t->m[kk][r][c] = v; }
+{
+  if (k) { t->dchg |= (t->disp == 1) & (CU(t->m[1][row][col - 1]) != CU(v)); t->m[1][row][col - 1] = v; t->used[1] |= 1u << row; }
+  else { t->dchg |= (t->disp == 0) & (CU(t->m[0][row][col - 1]) != CU(v)); t->m[0][row][col - 1] = v; t->used[0] |= 1u << row; }
+}
 static uint32_t r_get(const rchan *t, int k, int row, int col)
-{ int kk, r, c; uint32_t v = 0; for (kk = 0; kk < 2; kk++) for (r = 0; r < 15; r++) for (c = 0; c < 32; c++) if (kk == k && r == row && c + 1 == col) v = t->m[kk][r][c]; return v; }
+{ return k ? t->m[1][row][col - 1] : t->m[0][row][col - 1]; }
 static void r_erase(rchan *t, int k)
-{ int kk, r, c; for (kk = 0; kk < 2; kk++) for (r = 0; r < 15; r++) for (c = 0; c < 32; c++) if (kk == k) t->m[kk][r][c] = 0; }
+{
+  int r, c; unsigned ne = 0;
+  for (r = 0; r < 15; r++) for (c = 0; c < 32; c++) { if (k) { ne |= CU(t->m[1][r][c]); t->m[1][r][c] = 0; } else { ne |= CU(t->m[0][r][c]); t->m[0][r][c] = 0; } }
+  if (k == t->disp) { t->dchg |= (ne != 0); t->rows |= k ? t->used[1] : t->used[0]; }
+  if (k) t->used[1] = 0; else t->used[0] = 0;
+}
 static int r_mem_empty(const rchan *t, int k)
-{ int kk, r, c, e = 1; for (kk = 0; kk < 2; kk++) for (r = 0; r < 15; r++) for (c = 0; c < 32; c++) if (kk == k && t->m[kk][r][c] != 0) e = 0; return e; }
+{ int r, c; unsigned e = 1; for (r = 0; r < 15; r++) for (c = 0; c < 32; c++) e &= ((k ? t->m[1][r][c] : t->m[0][r][c]) == 0); return (int) e; }
 static int r_mems_equal(const rchan *t)
-{ int r, c, e = 1; for (r = 0; r < 15; r++) for (c = 0; c < 32; c++) if (CU(t->m[0][r][c]) != CU(t->m[1][r][c]) || (CU(t->m[0][r][c]) && t->m[0][r][c] != t->m[1][r][c])) e = 0; return e; }
+{ int r, c; unsigned e = 1; for (r = 0; r < 15; r++) for (c = 0; c < 32; c++) e &= (CU(t->m[0][r][c]) == CU(t->m[1][r][c])) & ((CU(t->m[0][r][c]) == 0) | (t->m[0][r][c] == t->m[1][r][c])); return (int) e; }
 static int r_wmem(const rchan *t) { return (t->mode == RM_POP) ? (t->disp ^ 1) : t->disp; }
 
 static void r_pen_default(rpen *p)
@@ -304,7 +325,7 @@ static void r_cr(rchan *t)
 {
   int r, c, k = t->disp;
   if (t->mode == RM_NONE) return;
-  t->rows = ROWS_ALL;
+  t->rows |= ROWBIT(t);
   if (t->mode == RM_POP || t->mode == RM_PAINT) {
 #ifdef KNOWN_CR_IN_POPON
     V_ASSUME(0);
@@ -314,8 +335,9 @@ static void r_cr(rchan *t)
   if (t->mode == RM_TEXT && t->row < 14) { t->row++; }
   else {
     int top = (t->mode == RM_TEXT) ? 0 : t->base - t->roll + 1;
-    for (r = 0; r < 14; r++) for (c = 0; c < 32; c++) if (r >= top && r < t->row) t->m[k][r][c] = t->m[k][r + 1][c];   /* (f)(1)(iii) */
-    for (r = 0; r < 15; r++) for (c = 0; c < 32; c++) if (r == t->row) t->m[k][r][c] = 0;
+    for (r = 0; r < 14; r++) for (c = 0; c < 32; c++) if (r >= top && r < t->row) { t->dchg |= (CU(t->m[k][r][c]) != CU(t->m[k][r + 1][c])); t->m[k][r][c] = t->m[k][r + 1][c]; }   /* (f)(1)(iii) */
+    for (r = 0; r < 15; r++) for (c = 0; c < 32; c++) if (r == t->row) { t->dchg |= (CU(t->m[k][r][c]) != 0); t->m[k][r][c] = 0; }
+    for (r = 0; r < 15; r++) if (r >= top && r <= t->row) { t->rows |= 1u << r; t->used[k] |= 1u << r; }
   }
   t->col = 1; t->full = 0; t->lag = 0;
 #ifdef KNOWN_PEN_NOT_RESET_AT_ROW_START
@@ -394,7 +416,7 @@ static void r_misc(unsigned c2)
 #endif
       }
     } else {
-      r_erase(c, 0); r_erase(c, 1); c->n_unk = 0; c->rows = ROWS_ALL;   /* (f)(1)(x) */
+      r_erase(c, 0); r_erase(c, 1); c->n_unk = 0;          /* (f)(1)(x) */
       c->mode = RM_ROLL; c->roll = n; c->base = 14; c->row = 14; c->col = 1; c->full = 0; c->cur_amb = 0;   /* (f)(1)(ii) */
 #ifdef KNOWN_PEN_NOT_RESET_AT_ROW_START
       c->pen.amb = A_ALL;
@@ -418,7 +440,6 @@ static void r_misc(unsigned c2)
 #else
     r_erase(&RT, 0);
 #endif
-    RT.rows = ROWS_ALL;
     RT.row = 0; RT.col = 1; RT.full = 0; RT.lag = 0; break;
   case 11: /* RTD */
     if (r_cur) RT.lag = 0; else RC.lag = 0;
@@ -430,7 +451,9 @@ static void r_misc(unsigned c2)
     V_ASSUME(!c->n_unk);
     c->n_unk = !r_mem_empty(c, c->disp);
 #endif
-    c->mode = RM_POP; c->disp ^= 1; c->lag = 0; c->rows = ROWS_ALL;   /* (f): flip without erasing */
+    { int r_, c_; unsigned d_ = 0; for (r_ = 0; r_ < 15; r_++) for (c_ = 0; c_ < 32; c_++) d_ |= (CU(c->m[0][r_][c_]) != CU(c->m[1][r_][c_])); c->dchg |= (d_ != 0); }
+    c->rows |= c->used[0] | c->used[1];
+    c->mode = RM_POP; c->disp ^= 1; c->lag = 0;          /* (f): flip without erasing */
 #ifdef KNOWN_EOC_MOVES_CURSOR
     c->cur_amb = 1;
 #endif
@@ -443,7 +466,7 @@ static void r_misc(unsigned c2)
 #ifdef KNOWN_EDM_ENM_IN_TEXT_MODE
     V_ASSUME(r_cur == 0);
 #endif
-    r_erase(c, c->disp); c->lag = 0; c->rows = ROWS_ALL; break;            /* acts on the caption channel also while Text Mode is selected (EIA 608-B B.7) */
+    r_erase(c, c->disp); c->lag = 0; break;            /* acts on the caption channel also while Text Mode is selected (EIA 608-B B.7) */
   case 14: /* ENM */
 #ifdef KNOWN_EDM_ENM_IN_TEXT_MODE
     V_ASSUME(r_cur == 0);
@@ -465,6 +488,7 @@ static void r_text_byte(rchan *t, unsigned b)
 static void ref_step(unsigned b1, unsigned b2)
 {
   unsigned c1 = b1 & 0x7F, c2 = b2 & 0x7F; int p1 = r_parity_ok(b1), p2 = r_parity_ok(b2);
+  RC.rows = ROWBIT(&RC); RT.rows = ROWBIT(&RT);          /* hint: rows this step may change (kept concrete: never reset under a symbolic guard) */
   V_ASSUME(p1);                                          /* outside: parity error in the first byte of a pair */
   if (c1 >= 0x10 && c1 <= 0x1F) {
     if (!p2) { r_last_valid = 0; return; }               /* damaged control code: ignored */
@@ -514,25 +538,34 @@ static void ref_step(unsigned b1, unsigned b2)
  * 3. comparison of the fetched page with the reference display memory
  * ====================================================================================================== */
 static vbi_page PG;
-static uint32_t PREVR[2][15][32];   /* reference display memory (characters) at the previous comparison */
 static unsigned EVSEEN[2];
 static unsigned n_compared;
 
-static uint32_t lib_pack(vbi_char c)
-{ return c.unicode | (c.foreground << 16) | (c.background << 19) | (c.opacity << 22) | (c.underline << 24) | (c.italic << 25) | (c.flash << 26); }
-static int lib_wellformed(vbi_char c)
-{ return (c.foreground < 8) & (c.background < 8) & (c.opacity < 4) & !(c.bold | c.conceal | c.proportional | c.link | c.reserved | c.size | c.drcs_clut_offs); }
+/* A vbi_char is read as one 64 bit word (x86-64 bit-field layout, the same in CBMC: asserted by obligation
+ * fetch_contract / "cell_layout"): reading the 14 bit-fields one by one costs symex 14 walks into the 170 KB decoder. */
+typedef uint64_t __attribute__((may_alias, aligned(4))) u64_alias;
+#define W_UNICODE(w) ((unsigned) ((w) >> 48))
+#define W_OPACITY(w) ((unsigned) (((w) >> 16) & 0xFF))
+#define W_FG(w) ((unsigned) (((w) >> 24) & 0xFF))
+#define W_BG(w) ((unsigned) (((w) >> 32) & 0xFF))
+#define W_UL(w) ((unsigned) ((w) & 1))
+#define W_IT(w) ((unsigned) (((w) >> 2) & 1))
+#define W_FL(w) ((unsigned) (((w) >> 3) & 1))
+/* bold, conceal, proportional, link, reserved, size, drcs_clut_offs zero; colours < 8; opacity < 4 */
+#define W_WELLFORMED(w) ((((w) & 0x0000FF000000FFF2ull) == 0) & (W_FG(w) < 8) & (W_BG(w) < 8) & (W_OPACITY(w) < 4))
+static uint32_t lib_pack_w(uint64_t w)
+{ return W_UNICODE(w) | (W_FG(w) << 16) | (W_BG(w) << 19) | (W_OPACITY(w) << 22) | (W_UL(w) << 24) | (W_IT(w) << 25) | (W_FL(w) << 26); }
 
-static void prev_init(void) { memset(PREVR, 0, sizeof PREVR); EVSEEN[0] = EVSEEN[1] = 0; n_compared = 0; }
+static void prev_init(void) { EVSEEN[0] = EVSEEN[1] = 0; n_compared = 0; }
 
 /* which: 0 caption channel, 1 text channel.  Written without branches on symbolic data (bit operations on 0/1 flags). */
 #define M_FGUI ((7u << 16) | (3u << 24))
 #define M_FL (1u << 26)
 #define M_BG ((7u << 19) | (3u << 22))
-static void compare_page(const rchan *t, int which, unsigned rows)
+static void compare_page(rchan *t, int which, unsigned rows)
 {
   int r, c, pgno = (CH & 3) + 1 + 4 * which;
-  unsigned ok_wf = 1, ok_char = 1, ok_transp = 1, ok_pad = 1, ok_fg = 1, ok_fl = 1, ok_bg = 1, changed = 0;
+  unsigned ok_wf = 1, ok_char = 1, ok_transp = 1, ok_pad = 1, ok_fg = 1, ok_fl = 1, ok_bg = 1;
   /* The cells are read from the page vbi_fetch_cc_page() copies (cc.channel[pgno - 1].pg[hidden ^ 1]), not from the
      copy: reading 510 cells back out of the memcpy'd 9 KB object stalls symex.  That the copy equals this page
      is the separate obligation fetch_contract (h_cc_fetch). */
@@ -547,12 +580,12 @@ static void compare_page(const rchan *t, int which, unsigned rows)
     Dv[0] = 0; Dv[COLUMNS - 1] = 0;
     for (c = 0; c < 32; c++) Dv[c + 1] = t->disp ? t->m[1][r][c] : t->m[0][r][c];
     for (c = 0; c < COLUMNS; c++) {
-      vbi_char lc = txt[r * COLUMNS + c];
-      uint32_t L = lib_pack(lc), Rv = Dv[c], x = L ^ Rv;
-      unsigned lop = (L >> 22) & 3, amb = Rv >> 27;
+      uint64_t w = *(const u64_alias *) &txt[r * COLUMNS + c];
+      uint32_t L = lib_pack_w(w), Rv = Dv[c], x = L ^ Rv;
+      unsigned lop = W_OPACITY(w), amb = Rv >> 27;
       unsigned nb = (c > 0 ? CU(Dv[c - 1]) : 0) | (c < COLUMNS - 1 ? CU(Dv[c + 1]) : 0);
       unsigned e = (CU(Rv) == 0);
-      ok_wf &= (unsigned) lib_wellformed(lc);
+      ok_wf &= (unsigned) W_WELLFORMED(w);
       /* nothing displayable here: transparent (caption) / blank (text); a solid space is tolerated next to a displayable character, (d)(1) */
       ok_transp &= !e | (CU(L) == 0x20);
       ok_pad &= !e | (which != 0) | (lop == VBI_TRANSPARENT_SPACE) | (nb != 0);
@@ -567,13 +600,6 @@ static void compare_page(const rchan *t, int which, unsigned rows)
 #endif
     }
   }
-  /* "visible page changed" := the characters of the reference display memory differ from the previous comparison
-     (then, both comparisons holding, the fetched page differs too) */
-  for (r = 0; r < 15; r++) for (c = 0; c < 32; c++) {
-    uint32_t v = t->disp ? t->m[1][r][c] : t->m[0][r][c];
-    changed |= (CU(v) != PREVR[which][r][c]);
-    PREVR[which][r][c] = CU(v);
-  }
   ok = vbi_fetch_cc_page(&VBI, &PG, pgno, TRUE);
   V_ASSERT(ok, "fetch_ok");
   V_ASSERT(PG.pgno == pgno && PG.rows == ROWS && PG.columns == COLUMNS, "fetch_geometry");
@@ -586,9 +612,12 @@ static void compare_page(const rchan *t, int which, unsigned rows)
   V_ASSERT(ok_fg, "display_colour_underline_italic");
   V_ASSERT(ok_fl, "display_flash");
   V_ASSERT(ok_bg, "display_background_opacity");
+  /* "visible page changed": the characters of the reference display memory changed since the previous comparison
+     (then, both comparisons holding, the fetched page differs too): a caption event must have been sent in between */
 #ifndef KNOWN_ERASE_WITHOUT_EVENT
-  if (changed) V_ASSERT(c08_ev_caption[pgno] != EVSEEN[which], "caption_event_on_visible_change");
+  if (t->dchg) V_ASSERT(c08_ev_caption[pgno] != EVSEEN[which], "caption_event_on_visible_change");
 #endif
+  t->dchg = 0;
   EVSEEN[which] = c08_ev_caption[pgno];
   n_compared++;
 }
@@ -611,10 +640,10 @@ static void after_step(unsigned b1, unsigned b2)
   ref_step(b1, b2);
   V_ASSERT(!c08_mutex_held(&VBI.cc.mutex), "mutex_released");
 #ifndef PROBE_NOCMP
-  if (!RC.lag) { compare_page(&RC, 0, RC.rows); RC.rows = 0; }
+  if (!RC.lag) compare_page(&RC, 0, RC.rows);
 #endif
 #if CMP_TEXT
-  if (!RT.lag) { compare_page(&RT, 1, RT.rows); RT.rows = 0; }
+  if (!RT.lag) compare_page(&RT, 1, RT.rows);
 #endif
 }
 static void step(uint8_t b1, uint8_t b2) { lib_feed(b1, b2); after_step(b1, b2); }
@@ -710,15 +739,128 @@ V_HARNESS(h_cc_seq)
   V_END();
 }
 
-/* ---- fetch contract (probe) ---- */
+/* ======================================================================================================
+ * 5. vbi_fetch_cc_page contract: the page handed out is the displayed page pg[hidden ^ 1] of channel pgno - 1
+ * ======================================================================================================
+ * grid: PGNO (0..9), HID (0/1).  The displayed page gets symbolic dirty fields and symbolic cells at a symbolic
+ * position; the copy must show them, the source page keeps them, its dirty fields are reset ("nothing to redraw"),
+ * the other page is untouched, the mutex is released; FALSE and no effect for pgno outside 1..8. */
+#ifndef PGNO
+#define PGNO 1
+#endif
+#ifndef HID
+#define HID 0
+#endif
 V_HARNESS(h_cc_fetch)
 {
-  unsigned k; vbi_bool ok;
+  unsigned k; vbi_bool ok; vbi_char cell, other; int y0, y1, roll, reset;
+  cc_channel *ch = &VBI.cc.channel[(PGNO - 1) & 7];
   V_INIT();
   cc_prologue();
-  k = in_u16();
-  ok = vbi_fetch_cc_page(&VBI, &PG, (CH & 3) + 1, TRUE);
-  V_ASSERT(ok, "fetch_ok");
-  V_ASSERT(PG.pgno == (CH & 3) + 1, "fetch_pgno");
+  ch->hidden = HID;
+  k = in_u16(); V_ASSUME(k < 1056);
+  in_bytes(&cell, sizeof cell); in_bytes(&other, sizeof other);
+  y0 = in_int(); y1 = in_int(); roll = in_int(); reset = in_bool();
+  ch->pg[HID ^ 1].text[k] = cell; ch->pg[HID].text[k] = other;
+  ch->pg[HID ^ 1].dirty.y0 = y0; ch->pg[HID ^ 1].dirty.y1 = y1; ch->pg[HID ^ 1].dirty.roll = roll;
+  memset(&PG, 0, sizeof PG);
+  ok = vbi_fetch_cc_page(&VBI, &PG, PGNO, reset);
+  V_ASSERT(!c08_mutex_held(&VBI.cc.mutex), "fetch_mutex_released");
+  if (PGNO < 1 || PGNO > 8) {
+    V_ASSERT(!ok, "fetch_rejects_pgno");
+    V_ASSERT(PG.pgno == 0 && PG.rows == 0, "fetch_rejected_no_output");
+    V_ASSERT(ch->pg[HID ^ 1].dirty.y0 == y0 && ch->pg[HID ^ 1].dirty.roll == roll, "fetch_rejected_no_effect");
+    V_REACH("rejected");
+  } else {
+    V_ASSERT(ok, "fetch_ok");
+    V_ASSERT(PG.vbi == &VBI && PG.pgno == PGNO && PG.subno == 0 && PG.rows == ROWS && PG.columns == COLUMNS, "fetch_header");
+    V_ASSERT(PG.screen_opacity == ((PGNO <= 4) ? VBI_TRANSPARENT_SPACE : VBI_OPAQUE), "fetch_screen_opacity");
+    V_ASSERT(0 == memcmp(&PG.text[k], &cell, sizeof cell), "fetch_cell_is_displayed_page");
+    { uint64_t w = *(const u64_alias *) &ch->pg[HID ^ 1].text[k];   /* the word view used by compare_page */
+      V_ASSERT(W_UNICODE(w) == cell.unicode && W_OPACITY(w) == cell.opacity && W_FG(w) == cell.foreground && W_BG(w) == cell.background
+               && W_UL(w) == cell.underline && W_IT(w) == cell.italic && W_FL(w) == cell.flash, "cell_layout");
+      V_ASSERT(W_WELLFORMED(w) == (cell.foreground < 8 && cell.background < 8 && cell.opacity < 4 && !cell.bold && !cell.conceal && !cell.proportional
+               && !cell.link && !cell.reserved && cell.size == 0 && cell.drcs_clut_offs == 0), "cell_layout_wellformed"); }
+    V_ASSERT(PG.dirty.y0 == y0 && PG.dirty.y1 == y1 && PG.dirty.roll == roll, "fetch_dirty_copied");
+    V_ASSERT(0 == memcmp(&ch->pg[HID ^ 1].text[k], &cell, sizeof cell), "fetch_source_unchanged");
+    V_ASSERT(0 == memcmp(&ch->pg[HID].text[k], &other, sizeof other), "fetch_hidden_page_unchanged");
+    V_ASSERT(ch->pg[HID ^ 1].dirty.y0 == ROWS && ch->pg[HID ^ 1].dirty.y1 == -1 && ch->pg[HID ^ 1].dirty.roll == 0, "fetch_resets_dirty");
+    V_ASSERT(ch->hidden == HID, "fetch_keeps_hidden");
+    V_REACH("fetched");
+  }
+  V_END();
+}
+
+/* ======================================================================================================
+ * 6. field-2 routing of vbi_decode_caption (line 284): caption vs XDS
+ * ======================================================================================================
+ * xds_separator's body is removed in the CBMC build (no effect; the XDS demultiplexer is the subject of C09).
+ * RB1: first byte, literal with parity bit.  cc.xds symbolic.  Channel CC3 was put into roll-up mode by a literal RU2. */
+#ifndef RB1
+#define RB1 0x01
+#endif
+V_HARNESS(h_cc_route)
+{
+  uint8_t b2; int xds0, col0, nul0, mode0; unsigned c1 = RB1 & 0x7F; int p1 = r_parity_ok(RB1);
+  cc_channel *ch = &VBI.cc.channel[2];
+  uint8_t buf[2];
+  V_INIT();
+  cc_prologue();
+  buf[0] = ODD(0x14); buf[1] = ODD(0x25); vbi_decode_caption(&VBI, 284, buf);          /* RU2 on CC3 */
+  V_ASSERT(ch->mode == MODE_ROLL_UP && VBI.cc.curr_chan == 2, "route_setup");
+  xds0 = in_bool(); VBI.cc.xds = xds0; b2 = in_u8();
+  col0 = ch->col; nul0 = ch->nul_ct; mode0 = ch->mode;
+  buf[0] = RB1; buf[1] = b2; vbi_decode_caption(&VBI, 284, buf);
+  V_ASSERT(!c08_mutex_held(&VBI.cc.mutex), "route_mutex_released");
+  if (p1 && c1 == 0) {
+    V_ASSERT(VBI.cc.xds == xds0 && ch->col == col0 && ch->nul_ct == nul0 && ch->mode == mode0, "route_nul_first_byte_no_effect");
+  } else if (p1 && c1 <= 0x0E) {
+    V_ASSERT(VBI.cc.xds == 1 && ch->col == col0 && ch->nul_ct == nul0 && ch->mode == mode0, "route_xds_start_continue");
+  } else if (p1 && c1 == 0x0F) {
+    V_ASSERT(VBI.cc.xds == 0 && ch->col == col0 && ch->nul_ct == nul0 && ch->mode == mode0, "route_xds_end");
+  } else if (p1 && c1 <= 0x1F) {
+    V_ASSERT(VBI.cc.xds == 0, "route_caption_control_ends_xds");
+    if (RB1 == ODD(0x14) && b2 == ODD(0x20)) { V_ASSERT(ch->mode == MODE_POP_ON, "route_control_code_executed"); V_REACH("rcl"); }
+  } else if (xds0) {
+    V_ASSERT(VBI.cc.xds == 1 && ch->col == col0 && ch->nul_ct == nul0 && ch->mode == mode0, "route_xds_payload_not_caption");
+    V_REACH("payload");
+  } else {
+    V_ASSERT(VBI.cc.xds == 0, "route_caption_text_keeps_xds_off");
+    if (p1 && r_parity_ok(b2) && (b2 & 0x7F) >= 0x20) { V_ASSERT(ch->col == col0 + 2, "route_caption_text_stored"); V_REACH("text"); }
+    if (!p1) { V_ASSERT(ch->col == col0 + 2, "route_bad_parity_two_blocks"); }
+  }
+  V_END();
+}
+
+/* ======================================================================================================
+ * 7. ITV (WebTV link) separator on T2: INV-STEP
+ * ======================================================================================================
+ * arbitrary itv_buf[256], itv_count in [0, 255] (invariant; initial 0), event mask symbolic, one character. */
+V_HARNESS(h_cc_itv)
+{
+  int cnt0, c; char ch_; unsigned mask; unsigned n0;
+  V_INIT();
+  cc_prologue();
+  in_bytes(VBI.cc.itv_buf, 256);
+  cnt0 = in_int(); V_ASSUME(cnt0 >= 0 && cnt0 <= 255);
+  VBI.cc.itv_count = cnt0;
+  mask = in_u32(); VBI.event_mask = (int) mask;
+  c = in_u8(); V_ASSUME(c < 0x80); ch_ = (char) c;
+  n0 = c08_trig_n;
+  itv_separator(&VBI, &VBI.cc, ch_);
+  V_ASSERT(VBI.cc.itv_count >= 0 && VBI.cc.itv_count <= 255, "itv_count_invariant");
+  if (!(mask & VBI_EVENT_TRIGGER)) {
+    V_ASSERT(VBI.cc.itv_count == cnt0 && c08_trig_n == n0, "itv_disabled_no_effect");
+  } else if (c >= 0x20 && c != '<') {
+    V_ASSERT(c08_trig_n == n0, "itv_no_trigger_on_text");
+    V_ASSERT(VBI.cc.itv_count == ((cnt0 > 254) ? 1 : cnt0 + 1), "itv_appended");
+    V_ASSERT(VBI.cc.itv_buf[(cnt0 > 254) ? 0 : cnt0] == (uint8_t) c, "itv_char_stored");
+    V_REACH("append");
+  } else {
+    V_ASSERT(c08_trig_n == n0 + 1 && c08_trig_ptr == VBI.cc.itv_buf, "itv_trigger_called_once");
+    V_ASSERT(c08_trig_len <= (unsigned) cnt0, "itv_string_terminated_in_buffer");
+    V_ASSERT(VBI.cc.itv_count == ((c == '<') ? 1 : 0), "itv_restart");
+    V_REACH("trigger");
+  }
   V_END();
 }
